@@ -311,7 +311,7 @@ func csRunScaled(b *csBeh, scale int) *csObs {
 	hijSeen := false
 
 	readItem := func() string { // "resp", "eof", "hijack", "timeout", "garbage"
-		cli.SetReadDeadline(time.Now().Add(3 * time.Second)) //nolint:errcheck
+		cli.SetReadDeadline(time.Now().Add(10 * time.Second)) //nolint:errcheck
 		p, err := br.Peek(1)
 		if err != nil || len(p) == 0 {
 			if ne, ok := err.(interface{ Timeout() bool }); ok && ne.Timeout() {
@@ -370,7 +370,7 @@ outer:
 				hijSeen = true
 				break outer
 			case it == "timeout":
-				o.problems = append(o.problems, fmt.Sprintf("no response within 3s after batch %d", k+1))
+				o.problems = append(o.problems, fmt.Sprintf("no response within 10s after batch %d", k+1))
 				break outer
 			default:
 				o.problems = append(o.problems, "unparseable response: "+it)
@@ -410,7 +410,7 @@ outer:
 		// full window (3 s when a close is due, 15 ms when the connection should stay open).
 		probe := 15 * time.Millisecond
 		if b.SrvClosed && !b.ClientClosed {
-			probe = 3 * time.Second
+			probe = 10 * time.Second
 		}
 		cli.SetReadDeadline(time.Now().Add(probe)) //nolint:errcheck
 		p, err := br.Peek(1)
@@ -435,13 +435,13 @@ outer:
 	if hijSeen {
 		select {
 		case <-hijDone:
-		case <-time.After(3 * time.Second):
-			o.problems = append(o.problems, "hijack handler did not see EOF within 3s")
+		case <-time.After(15 * time.Second):
+			o.problems = append(o.problems, "hijack handler did not see EOF within 15s")
 		}
 	}
 	// wait for the server side to finish with the connection
 	if b.Cfg.ViaServe {
-		dl := time.Now().Add(3 * time.Second)
+		dl := time.Now().Add(10 * time.Second)
 		for time.Now().Before(dl) {
 			o.mu.Lock()
 			n := len(o.states)
@@ -458,14 +458,14 @@ outer:
 		ln.Close()
 		select {
 		case <-serveDone:
-		case <-time.After(3 * time.Second):
+		case <-time.After(15 * time.Second):
 			o.problems = append(o.problems, "Serve did not return after listener close")
 		}
 	} else {
 		select {
 		case <-serveDone:
-		case <-time.After(3 * time.Second):
-			o.problems = append(o.problems, "ServeConn did not return within 3s of the client closing")
+		case <-time.After(15 * time.Second):
+			o.problems = append(o.problems, "ServeConn did not return within 15s of the client closing")
 		}
 	}
 	if hijSeen {
